@@ -453,5 +453,8 @@ PROPS["C15"] = dict(
                  "burst < 9.2e9 * rate (a new rate.Limiter is full at its first use)",
                  "arrival timestamps are non-decreasing (time.Now() is monotonic) for the window bound"],
     trusted=C15_TRUST,
-    level_note="",
+    level_note="proof: window bound (with gc under burst <= 60*rate), isolation, defaults and the refusal rule proved for all "
+               "histories; K3 (gc rebirth, burst > 60*rate) refuted with witness and recorded; x/time/rate is modelled as an exact "
+               "integer token bucket and tied by a virtual-time differential (decisions within <= 1e-6 token of the threshold not "
+               "compared); time.Now()-driven paths (resourceLimiter.AllowN, global limit) only e2e for the client limiter at rate 1/s",
 )
